@@ -213,7 +213,29 @@ def solve_scipy(
     constraints_violated = False
     max_violation = 0.0
 
-    if result.success and scipy_constraints:
+    # SLSQP's "positive directional derivative" exit is accepted as optimal
+    # below, so its point must pass the same feasibility scan as a success.
+    message_lower = str(getattr(result, "message", "")).lower()
+    accepted_exit = bool(result.success) or (
+        "positive directional derivative" in message_lower
+    )
+
+    if accepted_exit:
+        # Declared bounds (methods outside BOUNDS_METHODS never see them)
+        for i, (lb, ub) in enumerate(bounds):
+            x_i = float(result.x[i])
+            if np.isfinite(lb):
+                excess = lb - x_i
+                if excess > atol + rtol * max(1.0, abs(lb)):
+                    max_violation = max(max_violation, excess)
+                    constraints_violated = True
+            if np.isfinite(ub):
+                excess = x_i - ub
+                if excess > atol + rtol * max(1.0, abs(ub)):
+                    max_violation = max(max_violation, excess)
+                    constraints_violated = True
+
+    if accepted_exit and scipy_constraints:
         for c in scipy_constraints:
             c_val = c["fun"](result.x)
             # Scaled tolerance based on constraint magnitude
